@@ -160,6 +160,11 @@ func extractEvents(repo string, o *leanOut) {
 		{"ev_client_connect1", "mpx", "*client", "connect1", []string{"connecting", "connectRecover", "closed_", "async.Run", "mu."}},
 		{"ev_client_connectRecover", "mpx", "*client", "connectRecover", []string{"connectAttempt", "reconnectTimeout", "connector.connect", "closed_", "connected_", "disconnected_", "conns.", ".Close", "mu.", "handle"}},
 		{"ev_reconnectTimeout", "mpx", "", "reconnectTimeout", []string{"min", "@assign"}},
+		{"ev_lexer_Lex", "internal/lang/parser", "*lexer", "Lex", []string{"Scan", "keywords", "ParseInt", "yyLexErrorf"}},
+		{"ev_lexer_new", "internal/lang/parser", "", "newLexer", []string{"@assign", "Init"}},
+		{"ev_lexer_Error", "internal/lang/parser", "*lexer", "Error", []string{"@assign"}},
+		{"ev_lexer_scanError", "internal/lang/parser", "*lexer", "scanError", []string{"@assign"}},
+		{"ev_parser_parse", "internal/lang/parser", "*parser", "parse", []string{"Parse", "newLexer", "@assign"}},
 		{"ev_reader_readLine", "mpx", "*connReader", "readLine", []string{"ReadByte", "ReadString", "@assign"}},
 		{"ev_reader_read", "mpx", "*connReader", "read", []string{"io.ReadFull", "binary.BigEndian", "buf.Grow", "buf.Reset"}},
 	}
